@@ -429,6 +429,10 @@ def replay(pid, path, quiet=False):
 def run_check(pid, tier="quick", seed=0, workers=None, budget=None, batches=None):
     mod = load(pid)
     cfg = dict(getattr(mod, "QUICK" if tier == "quick" else "THOROUGH"))
+    if tier == "quick":
+        # the per-module figures date from the first build; the quick tier runs twice as many batch seeds now (still
+        # under the same wall-clock cap, which ends the search first on a slow or busy machine)
+        cfg["batches"] = int(cfg["batches"] * float(os.environ.get("VERIF_QUICK_SCALE", "2")))
     if batches is not None:
         cfg["batches"] = batches
     if budget is not None:
